@@ -20,7 +20,7 @@ ASSUMPTIONS = [
     "the parallel hashing path is reached by construction (two files larger than the threshold in one directory); its use is inferred from the inputs, not from an internal hook",
 ]
 MONITORS = "oid / bytes equality across permutations and configurations; independent canonical encoder; collision map"
-REQUIRED_COUNTERS = ["legacy_algorithm_builds_with_large_text_files", "digested_object_reread_after_other_digests", "late_materialisations", "flaky_read_builds", "inode_only_swaps", "get_obj_after_add_histories", "state_warmed_under_other_algorithm", "permutations_checked", "sets_exhaustively_permuted", "disk_builds", "parallel_path_builds", "shuffled_walk_builds",
+REQUIRED_COUNTERS = ["other_hash_name_listings_through_the_store", "legacy_algorithm_builds_with_large_text_files", "digested_object_reread_after_other_digests", "late_materialisations", "flaky_read_builds", "inode_only_swaps", "get_obj_after_add_histories", "state_warmed_under_other_algorithm", "permutations_checked", "sets_exhaustively_permuted", "disk_builds", "parallel_path_builds", "shuffled_walk_builds",
                      "warm_state_builds", "prefix_objects_checked", "roundtrip_checks", "get_hashes_threshold_checks"]
 
 
@@ -162,6 +162,39 @@ def run_shard(ctx):
                 back.digest()
                 if back.oid != ref_oid:
                     res.violation("list-roundtrip-changes-oid", "re-parsed listing has another identifier", case=case, detail={"entries": listing})
+            # listings whose entries carry opaque, case-sensitive digests under another name (cloud etags / checksums): through a
+            # real store and back, and injective
+            if rng.random() < 0.15:
+                import base64 as _b64
+
+                hname = rng.choice(["etag", "checksum"])
+                vals = {}
+                for key, _dg in items:
+                    raw_ = rng.randbytes(9)
+                    vals[key] = rng.choice([_b64.b64encode(raw_).decode(), "0x8D" + raw_.hex().upper(), raw_.hex()])
+                te = Tree()
+                for key, _dg in items:
+                    te.add(key, rmeta(rng), HashInfo(hname, vals[key]))
+                te.digest()
+                dummy.add(te.path, te.fs, te.oid)
+                res.count("other_hash_name_listings_through_the_store")
+                back_e = Tree.load(dummy, te.hash_info)
+                got_e = {kk: (hi.name, hi.value) for kk, _m, hi in back_e}
+                if got_e != {key: (hname, vals[key]) for key, _dg in items}:
+                    res.violation("list-roundtrip-not-identity/other-hash-name-through-store", f"a listing of {hname} entries stored and re-loaded does not give the same entries",
+                                  case=case, detail={"name": hname, "got": str(sorted(got_e.items()))[:300]})
+                back_e.digest()
+                if back_e.oid != te.oid:
+                    res.violation("list-roundtrip-changes-oid/other-hash-name-through-store", "re-loaded listing has another identifier", case=case, detail={"name": hname})
+                # the same paths with the digests in another letter case are another entry set: other bytes
+                swapped = {key: (v.swapcase() if v.swapcase() != v else v + "x") for key, v in vals.items()}
+                ts = Tree()
+                for key, _dg in items:
+                    ts.add(key, rmeta(rng), HashInfo(hname, swapped[key]))
+                ts.digest()
+                if ts.as_bytes() == te.as_bytes() or ts.oid == te.oid:
+                    res.violation("two-sets-same-bytes/digests-differing-in-case", "two entry sets whose digests differ only in letter case serialise to the same bytes", case=case,
+                                  detail={"name": hname})
             # every prefix
             prefixes = {key[:i] for key in entries for i in range(1, len(key))}
             for pre in sorted(prefixes):
